@@ -227,11 +227,15 @@ class Sched:
         self.sites_seen: set = set()
         self.collect_sites = plan.get("collect_sites", False)
         self.finish_pref = list(plan.get("finish_pref") or [])
+        self.first = plan.get("first", 0)
+        self.writer_sites = set(plan.get("writer_sites") or [])
         self.hot_sites = set(plan.get("hot_sites") or [])
         self.list_hot = bool(plan.get("list_hot_steps"))
         self.hot_steps: list = []
         self.priority_steps: list = []
         self.dirty_probe = None
+        self.sig_probe = None  # callable() -> shared-state signature (listing runs only)
+        self._last_sig = None
         dec = plan["decider"]
         self.kind = dec["kind"] if plan.get("decisions") is None else "explicit"
         self.explicit = {int(s): int(t) for s, t in (plan.get("decisions") or [])}
@@ -311,10 +315,24 @@ class Sched:
         self.step += 1
         self.thread_steps[i] += 1
         self.last_event = time.monotonic()
-        if self.list_hot and ev == "line" and not self.decisions:
+        if self.list_hot and i == self.first and ev == "call" and self.writer_sites and not self.decisions:
+            from . import boot
+
+            if boot.site_of(frame.f_code) in self.writer_sites:
+                # entry of a function that writes process-shared state: "about to touch it"
+                self.hot_steps.append(self.step)
+                self.priority_steps.append(self.step)
+        if self.list_hot and i == self.first and ev == "line" and not self.decisions:
             self.hot_steps.append(self.step)
             if self.dirty_probe is not None and self.dirty_probe(i):
                 self.priority_steps.append(self.step)  # a component object is different from its baseline right now
+            elif self.sig_probe is not None:
+                cur = self.sig_probe()
+                if self._last_sig is not None and cur != self._last_sig:
+                    # first statement boundary after a write to process-shared state: the window between
+                    # "this thread has written" and "this thread reads again" starts here
+                    self.priority_steps.append(self.step)
+                self._last_sig = cur
         if self.collect_sites:
             from . import boot
 
@@ -326,7 +344,7 @@ class Sched:
     def switch(self, i, nxt, frame=None):
         from . import boot, state
 
-        site = boot.site_of(frame.f_code) if frame is not None else "?"
+        site = (boot.site_of(frame.f_code) + ":" + str(frame.f_lineno)) if frame is not None else "?"
         in_ctx = None
         try:
             in_ctx = state.s1_digest().get("colour_ctx") not in (None, "n/a")
@@ -450,6 +468,11 @@ def exec_schedule(arg) -> dict:
 
     hint = sum(nbound(refs[str(i)]) for i in range(n))
     sched = Sched(n, plan, hint)
+    if plan.get("list_hot_steps"):
+        from . import state as _state
+
+        _fs = _state.FastSig()
+        sched.sig_probe = _fs.sig
     if plan.get("list_hot_steps") and plan.get("check_dirty"):
         shl = plan.get("share") or [None] * n
         attrs = [tuple(R._COMP_ARG[c] for c in SHARED_COMPONENTS if shl[i] and shl[i].get(c) and c in R._COMP_ARG)
@@ -1098,7 +1121,8 @@ def hot_job(j: dict) -> dict:
         for order in (0, 1):
             plan = {"recipes": j["recipes"], "decider": {"kind": "sweep"}, "first": order, "trace_mode": "hot",
                     "hot_sites": sorted(hot), "decisions": [], "abort": None, "list_hot_steps": True,
-                    "check_dirty": dirty, "share": share}
+                    "check_dirty": dirty, "share": share,
+                    "writer_sites": sorted(k for k, v in hot.items() if v > 0)}
             res = run_plan(plan, refs, ws["figdir"])
             out["hot_steps"][str(order)] = res["hot_steps"] or []
             out["priority_steps"][str(order)] = res.get("priority_steps") or []
@@ -1149,18 +1173,20 @@ def sweep_jobs(root: int, groups: list, refcache: RefCache, specs: list, hot_inf
         m = max(1, int(hot3_cap ** 0.5))
         pick_a = _pick(sa, info.get("priority_steps", {}).get("0", []), m)
         pick_b = _pick(sb, info.get("priority_steps", {}).get("1", []), m)
-        # two threads, two or three switches: A paused inside a hot function, B paused inside a hot
-        # function, A resumes (to completion, or just for d more boundaries), then B
-        for k1 in pick_a:
-            for j2 in pick_b:
-                for d in (None, 1, 2, 4, 8):
-                    decs = [[k1, 1], [k1 + j2, 0]] + ([[k1 + j2 + d, 1]] if d else [])
-                    plan = {"recipes": [a, b], "decider": {"kind": "sweep"}, "first": 0, "trace_mode": "hot",
-                            "hot_sites": sorted(info["hot"]), "decisions": decs, "finish_pref": [0, 1], "abort": None,
-                            "share": GROUP_SHARE.get(name)}
-                    jobs.append({"idx": idx, "sweep": {"group": name, "order": 0, "k": k1, "K": len(sa),
-                                                       "mode": "hot2x", "stride": 0}, "plan": plan})
-                    idx += 1
+        # two threads, two or three switches: X paused inside a hot function, Y paused inside a hot
+        # function, X resumes (to completion, or just for d more boundaries), then Y - both role assignments
+        for (x, y, px, py, tag) in ((a, b, pick_a, pick_b, 0), (b, a, pick_b, pick_a, 1)):
+            shx = GROUP_SHARE.get(name)
+            for k1 in px:
+                for j2 in py:
+                    for d in (None, 1, 2, 4, 8):
+                        decs = [[k1, 1], [k1 + j2, 0]] + ([[k1 + j2 + d, 1]] if d else [])
+                        plan = {"recipes": [x, y], "decider": {"kind": "sweep"}, "first": 0, "trace_mode": "hot",
+                                "hot_sites": sorted(info["hot"]), "decisions": decs, "finish_pref": [0, 1],
+                                "abort": None, "share": shx}
+                        jobs.append({"idx": idx, "sweep": {"group": name, "order": tag, "k": k1, "K": len(px),
+                                                           "mode": "hot2x", "stride": 0}, "plan": plan})
+                        idx += 1
         for k1 in pick_a:
             for j2 in pick_b:
                 for pref in ([0, 1], [1, 0]):
